@@ -1,0 +1,116 @@
+//! Verification hook H2 (compiled only with `--cfg salsa_rs_salsa_verif`): a process-wide log of
+//! the claim / wait / transfer protocol, one record per critical section of
+//! `function/sync.rs`, `runtime.rs` and `runtime/dependency_graph.rs`.
+//!
+//! Every record is appended while the lock(s) of the critical section it describes are still
+//! held, so the order of the log is a linearisation of the protocol steps.
+//!
+//! Record format (one line, space separated):
+//!
+//! ```text
+//! <seq> <logging thread> <op> <args...> [-> <outcome...>]
+//! ```
+//!
+//! Thread ids are small integers in first-seen order; keys are `ingredient.index.generation`.
+//!
+//! The log uses `std::sync::Mutex`, not `crate::sync::Mutex`, on purpose: it also has to work
+//! under the `shuttle` feature, where it must not introduce scheduling points. The lock is only
+//! ever held for a push (never across a shuttle scheduling point), so it cannot deadlock the
+//! cooperative shuttle scheduler.
+
+use std::sync::Mutex;
+
+use crate::key::DatabaseKeyIndex;
+use crate::sync::thread::{self, ThreadId};
+
+struct ProtoLog {
+    seq: u64,
+    threads: Vec<ThreadId>,
+    lines: Vec<String>,
+}
+
+static LOG: Mutex<ProtoLog> = Mutex::new(ProtoLog {
+    seq: 0,
+    threads: Vec::new(),
+    lines: Vec::new(),
+});
+
+/// One token of a record.
+pub(crate) enum P<'a> {
+    /// literal text
+    S(&'a str),
+    /// a thread
+    T(ThreadId),
+    /// a query key
+    K(DatabaseKeyIndex),
+    /// a flag, printed as 0/1
+    B(bool),
+}
+
+fn thread_number(log: &mut ProtoLog, id: ThreadId) -> usize {
+    match log.threads.iter().position(|t| *t == id) {
+        Some(n) => n,
+        None => {
+            log.threads.push(id);
+            log.threads.len() - 1
+        }
+    }
+}
+
+/// Append one record. The first two fields (sequence number, logging thread) are added here.
+pub(crate) fn record(parts: &[P<'_>]) {
+    use std::fmt::Write;
+
+    let current = thread::current().id();
+    let mut log = LOG.lock().unwrap_or_else(|e| e.into_inner());
+    let seq = log.seq;
+    log.seq += 1;
+    let me = thread_number(&mut log, current);
+    let mut line = format!("{seq} {me}");
+    for part in parts {
+        line.push(' ');
+        match part {
+            P::S(s) => line.push_str(s),
+            P::T(t) => {
+                let n = thread_number(&mut log, *t);
+                let _ = write!(line, "{n}");
+            }
+            P::K(k) => {
+                let _ = write!(
+                    line,
+                    "{}.{}.{}",
+                    k.ingredient_index().as_u32(),
+                    k.key_index().index(),
+                    k.key_index().generation()
+                );
+            }
+            P::B(b) => line.push(if *b { '1' } else { '0' }),
+        }
+    }
+    log.lines.push(line);
+}
+
+/// `WaitResult` as a token.
+pub(crate) fn wait_result(r: crate::runtime::WaitResult) -> P<'static> {
+    match r {
+        crate::runtime::WaitResult::Completed => P::S("completed"),
+        crate::runtime::WaitResult::Panicked => P::S("panicked"),
+        crate::runtime::WaitResult::Cancelled => P::S("cancelled"),
+    }
+}
+
+/// `SyncOwner` as two tokens: `thread <n>` or `transferred -`.
+pub(crate) fn owner(o: crate::function::SyncOwner) -> [P<'static>; 2] {
+    match o {
+        crate::function::SyncOwner::Thread(t) => [P::S("thread"), P::T(t)],
+        crate::function::SyncOwner::Transferred => [P::S("transferred"), P::S("-")],
+    }
+}
+
+/// Take (and clear) the protocol trace recorded so far; thread numbering restarts.
+pub fn verif_take_proto_trace() -> Vec<String> {
+    let mut log = LOG.lock().unwrap_or_else(|e| e.into_inner());
+    log.seq = 0;
+    log.threads.clear();
+    std::mem::take(&mut log.lines)
+}
